@@ -170,7 +170,14 @@ def check(ctx):
         n_eval = 0
         for nframes in (3, 4, 5, 6, 7, 10):
             f0 = frame_chain(nframes)
-            interp = Interp(m, ext={"inspect.currentframe": lambda f0=f0: f0})
+            def _getframe(depth=0, f0=f0):
+                fr = f0
+                for _ in range(depth):
+                    fr = fr.attrs.get("f_back") if isinstance(fr, Obj) else None
+                    if fr is None:
+                        raise AbsRaise("ValueError: call stack is not deep enough")
+                return fr
+            interp = Interp(m, ext={"inspect.currentframe": lambda f0=f0: f0, "sys._getframe": _getframe})
             try:
                 sf = interp.call_func(gsf, None, [], {})
             except AbsRaise as e:
@@ -231,6 +238,7 @@ def check(ctx):
     from .evalrules import rule_frames_of_created_calls
     er_ = E.discover(m)
     ctx.run(rule_frames_of_created_calls, "C19.S2", R.discover(m, er_))
+    ctx.run(rule_frame_chains_compared_whole, "C19.S2")
     # ---------------------------------------------------------------- S3
     ctx.run(rule_registry_frames, "C19.S3", R.discover(m, er_))
     from .extra import rule_capture_method_callers
@@ -326,3 +334,55 @@ def _anc(mod, n):
     while p is not None and not isinstance(p, (ast.FunctionDef, ast.AsyncFunctionDef)):
         yield p
         p = mod.parent.get(p)
+
+
+
+def rule_frame_chains_compared_whole(ctx, rid):
+    """A captured frame is a *chain* (innermost line ... outermost line).  Two captures made at the same line from different callers
+    differ only in their outer part, so (a) if the frame class defines equality / hashing at all, chains that differ in an outer
+    frame must compare unequal (evaluated), and (b) nothing on the attribution path is memoised on a frame (a memo is keyed by that
+    equality - and even with a sound equality it would tie the message of one error to the chain of another)."""
+    from .c02 import _memoised_callables
+    m = ctx.model
+    sfc = m.one_class("StackFrame", "S2")
+    eqm = sfc.methods.get("__eq__")
+    if eqm is not None:
+        interp = Interp(m)
+
+        def frame(line, outer):
+            return Obj(sfc, {"name": "helper", "path": "/user/lib.py", "line": line, "outer": outer}, name=f"frame@{line}")
+        o1 = Obj(sfc, {"name": "main", "path": "/user/app.py", "line": 10, "outer": None}, name="outer10")
+        o2 = Obj(sfc, {"name": "main", "path": "/user/app.py", "line": 20, "outer": None}, name="outer20")
+        try:
+            r_ = interp.call_func(eqm, None, [frame(5, o2)], {}, bound_self=frame(5, o1))
+        except AbsRaise as e:
+            raise AnalysisError(f"evaluating StackFrame.__eq__ raised {e.value!r}")
+        ok = not (r_ is True or (r_ not in (False, None) and getattr(r_, "name", "") != "NotImplemented" and interp.truth(r_)))
+        ctx.ob(rid, f"{sfc.name}/equality-covers-the-chain", ok, loc(eqm),
+               "frames captured at the same line from different callers compare unequal" if ok else
+               "StackFrame equality ignores the outer frames: two captures at the same line of a helper, reached from different callers, are "
+               "'equal' - anything keyed by a frame (interning, memoised rendering) then shows the first caller's lines for the second error")
+    memo = _memoised_callables(m)
+    n = 0
+    for f in m.funcs.values():
+        if f.module.name.startswith("uberjob._testing"):
+            continue
+        for c in f.own_calls():
+            hit = False
+            if isinstance(c.func, ast.Name) and (f.module, c.func.id) in memo:
+                hit = True
+            else:
+                for g in m.callee_funcs(f, c):
+                    if (g.module, g.name) in memo and memo[(g.module, g.name)] is g:
+                        hit = True
+            if not hit:
+                continue
+            frames = [a for a in list(c.args) + [k.value for k in c.keywords]
+                      if (isinstance(a, ast.Attribute) and a.attr in ("stack_frame", "outer")) or (isinstance(a, ast.Name) and a.id == "stack_frame")]
+            if frames:
+                n += 1
+                ctx.ob(rid, f"{f.short}/memoised-on-a-frame", False, loc(f, c),
+                       f"`{norm(c)[:60]}` memoises on a captured frame chain: the result computed for one capture is reused for every capture "
+                       f"the frame class calls equal", norm(c)[:100])
+    if not n:
+        ctx.ob(rid, "FRAMES/not-memoised", True, loc(sfc.methods.get("__init__") or next(iter(sfc.methods.values()))), "nothing on the attribution path is memoised on a captured frame")
